@@ -25,6 +25,7 @@ fn unit_scenario(direct: Direct, initial_parts: Vec<(u8, u16)>, steps: Vec<Step>
         crash_at: vec![],
         freeze: None,
         hold: vec![],
+        freeze_polls: false,
     }
 }
 
